@@ -6,6 +6,8 @@
      a[3] = [nr2; nr6_c0; nr6_c1]   (Fp2 = Fp[u]/(u^2 - nr2); Fp6 = Fp2[v]/(v^3 - (c0 + c1 u));
                                      Fp12 = Fp6[w]/(w^2 - v);  Fp4 = Fp2[v]/(v^2 - u))
      a[4] = [r]   a[5] = bytes
+     tower = 32 ("2 over 3", the numbering of C09.Run.tower_of): a[3] = [nr3]
+                                    (Fp3 = Fp[u]/(u^3 - nr3);  Fp6 = Fp3[v]/(v^2 - u): CP6-782, BW6-767, BW6-761, MNT6-298)
    Point cases (ops 2 sw_de, 3 te_de, 4 zc_de, 6 sw_check, 7 te_check, 8 sw_revalid, 9 te_revalid):
      a[0] = [curve_id; N; compress; validate; projective]
      a[1] = [p; deg]   a[2] = [nr] (deg 2: Fp[u]/(u^2 - nr); deg 3: Fp[u]/(u^3 - nr))   a[3] = COEFF_A   a[4] = COEFF_B | COEFF_D
@@ -115,6 +117,8 @@ Definition run_C10 (op : Z) (a : list (list Z)) : list (list Z) :=
     | 12 => let F6 := CubicOps F2 (argz 3 1 a mod p, argz 3 2 a mod p) in
             run_po (QuadOps F6 ((0, 0), (1 mod p, 0), (0, 0)))
                    (tower_quad (tower_cubic (tower_quad fp))) (fun x => x) (fun x => x) a
+    | 32 => let F3 := CubicOps (ZpOps p) (argz 3 0 a mod p) in
+            run_po (QuadOps F3 (0, 1 mod p, 0)) (tower_quad (tower_cubic fp)) (fun x => x) (fun x => x) a
     | _ => unsupported
     end
   else
